@@ -94,6 +94,7 @@ def run_scenario(sc: dict[str, Any]) -> dict[str, Any]:
                 if del_rv is not None and rv == del_rv: out.append({'ev': 'stop', 't': e['t']})
             elif ev == 'quiet':
                 out.append({'ev': 'quiet', 't': e['t']})
+                break        # what follows is the harness stopping the operator (a running function is cancelled)
         return {'id': sc['id'], 'conf': c, 't0': t0, 'events': out, 'stall': stall, 'scenario': sc}
     finally:
         sim.close()
